@@ -362,6 +362,7 @@ class Run(object):
                     self.ev.insert(self.start_idx, dict(e='run', ok=True))
                     self.log(e='retx', detail='%s: %s' % (type(error).__name__, error))
                     self.outcome = 'crash'
+                self.frozen = True
                 return None
             self.ev.insert(self.start_idx, dict(e='run', ok=True))
             if isinstance(val, int) and not isinstance(val, bool) and 0 <= val < 1000:
@@ -370,6 +371,9 @@ class Run(object):
             else:
                 self.log(e='retx', detail='run() returned %r' % (val,))
                 self.outcome = 'crash'
+            # the observation ends when run() returns: what orphan tasks of a failed pipeline still do in the last
+            # loop iteration (wpull closes the loop right after run()) is not part of the recording
+            self.frozen = True
             return val
 
         kind, val = vloop.run(main, self.env_step, tick_hook=self.tick if self.timed else None,
